@@ -1236,6 +1236,18 @@ class Evaluator:
             mark, other = (a, b) if a[0] == "sentinel" else (b, a)
             if other[0] == "ite":
                 return t_ite(other[1], self.compare(op, mark, other[2], fr), self.compare(op, mark, other[3], fr))
+            o2 = other
+            while o2[0] == "var" and len(o2) == 4:
+                o2 = o2[3]
+            if o2[0] == "call" and o2[1] == "next" and len(o2[2]) == 2 and o2[2][1] == mark and not o2[3] and self._marker_is_private(mark):
+                src = o2[2][0]
+                while src[0] == "var" and len(src) == 4:
+                    src = src[3]
+                if src[0] == "comp" and src[1] in ("gen", "list"):
+                    # ``next(<selection>, MARKER) is MARKER``: nothing is selected -- every candidate fails one of the tests
+                    tests = [c for g in src[3] for c in g[1]]
+                    none_selected = ("quant", "all", ("comp", "gen", t_not(t_and(*tests)) if tests else FALSE, tuple((g[0], ()) for g in src[3])))
+                    return none_selected if op in ("is", "==") else t_not(none_selected)
             if other[0] == "sentinel" or _never_none(other) or other == NONE or (other[0] == "sub" and self._marker_is_private(mark)):
                 return FALSE if op in ("is", "==") else TRUE
         if op in ("is", "isnot", "==", "!=") and a == b and a[0] == "sentinel":
@@ -1408,6 +1420,14 @@ class Evaluator:
                     kwargs.append(("**", v))
             else:
                 kwargs.append((kw.arg, self.expr(kw.value, fr)))
+        if isinstance(e.func, ast.Name) and len(args) >= 1 and not kwargs and not any(a[0] == "star" for a in args):
+            callee = fr.env.get(e.func.id)
+            if callee is not None and callee[0] == "call" and (callee[1] in ("partial", "attrgetter", ("global", "partial"), ("global", "attrgetter"))
+                                                                  or (isinstance(callee[1], tuple) and callee[1][-1:] in (("partial",), ("attrgetter",)))):
+                # a local name bound to ``partial(..)`` / ``attrgetter(..)`` is that callable
+                got = self.apply_callable(callee, args[0], fr, tuple(args[1:]))
+                if got is not None:
+                    return got
         if isinstance(e.func, ast.Name) and fr.env.get(e.func.id, ("?",))[0] == "lambda" and fr.env[e.func.id][1] in self.lambdas \
                 and not kwargs and not any(a[0] == "star" for a in args):
             node, cenv, cfr = self.lambdas[fr.env[e.func.id][1]]
@@ -1452,6 +1472,10 @@ class Evaluator:
                     return ("isinstance", args[0], show(args[1]))
                 if n == "dict" and not args and not kwargs:
                     return ("dict", ())
+                if n == "dict" and len(args) == 1 and not kwargs and args[0][0] == "call" and args[0][1] in ("enumerate", "zip"):
+                    # ``dict(<pairs>)`` is ``{k: v for k, v in <pairs>}``
+                    b = ("bound", fr.depth, 0, show(args[0]))
+                    return ("dictcomp", ("item", b, 0), ("item", b, 1), ((args[0], ()),))
                 if n == "dict" and not args and kwargs and all(k != "**" for k, _ in kwargs):
                     return ("dict", tuple((("const", k), v) for k, v in kwargs))
                 if n == "getattr" and len(args) in (2, 3) and not kwargs and args[1][0] == "const" and isinstance(args[1][1], str) and len(args) == 2:
